@@ -374,6 +374,19 @@ func (fr *Frame) loopModifies(li *loopInfo) *loopMods {
 				for _, a := range t.Call.Args {
 					markArg(a)
 				}
+				// last(f) cells: a call inside the loop overwrites them (a callee
+				// that is executed in place may call anything)
+				if sf := t.Call.StaticCallee(); !t.Call.IsInvoke() && (sf == nil || (sf.Blocks != nil && x.w.contractFor(sf) == nil)) {
+					for _, cs := range x.lastCalls {
+						for _, c := range cs {
+							m.cells[c] = true
+						}
+					}
+				} else {
+					for _, c := range x.lastCalls[lastCallName(&t.Call)] {
+						m.cells[c] = true
+					}
+				}
 				eff := x.callEffects(fr, &t.Call, 0)
 				if eff.all {
 					m.all = true
